@@ -569,6 +569,8 @@ impl C12 {
             (_, Outcome::Returned(Err(k))) => {
                 if el > bound {
                     cx.violation(format!("C12 timeout-not-bounding eco {}", if v6 { "v6" } else { "v4" }), || json!({"case": label, "elapsed_ms": el.as_millis() as u64, "bound_ms": bound.as_millis() as u64}));
+                } else if !matches!(k, GDErrorKind::InvalidInput | GDErrorKind::PacketSend | GDErrorKind::PacketReceive | GDErrorKind::SocketConnect) {
+                    cx.violation(format!("C12 wrong-error-class eco got={}", kind_name(&k)), || json!({"case": label, "kind": kind_name(&k), "what": "a silent or refusing HTTP server must give a send/receive/connect-class error"}));
                 } else if matches!(k, GDErrorKind::InvalidInput) {
                     cx.violation(format!("C12 eco address-rejected {}", if v6 { "v6" } else { "v4" }), || json!({"case": label, "kind": kind_name(&k), "what": "the caller's address could not even be turned into a request"}));
                 } else {
@@ -836,6 +838,7 @@ impl Check for C12 {
             "wall-clock verdicts use generous slack and need three consecutive breaches; the load-independent part is the syscall log".into(),
             "strace attaches with ptrace to a child of the worker; if ptrace is unavailable those cases are inconclusive".into(),
             "'refused' = a loopback port nobody listens on".into(),
+            "HTTP: ureq's call() is one step covering connect, send and the wait for the status line, and the library maps any failure of it to PacketSend; for a never-answering or refusing HTTP server PacketSend / PacketReceive / SocketConnect are all accepted as 'matching class', a stall inside the body must be PacketReceive".into(),
         ]
     }
     fn total_cases(&self, tier: Tier) -> u64 { tier.pick(520, 8_000) }
